@@ -87,6 +87,11 @@ class World:
         self.attr_handlers = {}  # (class, attr) -> handler(executor, state, objval, node)
         self.assumptions_used: set[str] = set()
         self.symbolic_globals: dict[int, object] = {}  # id(real object) -> type hint
+        self.symbolic_module_attrs: dict[tuple, object] = {}  # (module name, attr) -> hint
+        self.str_handlers = {}  # class -> fn(executor, state, Val) -> String term
+        self.ghost_sorts = {}
+        self.sql_tags = {}
+        self.axioms = []  # valid facts about uninterpreted symbols, added to the hypotheses of every obligation
 
     def symbolic_global(self, obj, hint):
         self.symbolic_globals[id(obj)] = hint
